@@ -182,7 +182,9 @@ def handle : List String → Option String
          ("localupper", Pep.localUpper a)])
     | "maven" => do
       let a ← mavenOf sa
-      some (classLine a.valid (Maven.inLib a) [("finalsnapshot", Maven.finalSnapshot a)])
+      some (classLine a.valid (Maven.inLib a)
+        [("finalsnapshot", Maven.finalSnapshot a), ("zerosnapshot", Maven.zeroSnapshot a),
+         ("dotunknown", Maven.dotUnknown a)])
     | _ => do
       let _ ← semverSys eco
       let a ← semverOf sa
